@@ -7,7 +7,8 @@ class C14(vlib.Spec):
     model_vo = ["theories/Push/SinkRun.vo"]
     props_vo = "theories/Props/C14.vo"
     theorems = ["C14_filter_map", "C14_map", "C14_filter", "C14_flat_map", "C14_flatten",
-                "C14_unzip", "C14_lazy", "C14_lazy_init_once_partial"]
+                "C14_unzip", "C14_lazy", "C14_for_each", "C14_try_for_each", "C14_send_iter",
+                "C14_lazy_init_once_partial"]
     level = "proof"
     crate, group, binary = "h_push", "light", "h_push"
     shrink_rounds = 20
